@@ -103,6 +103,7 @@ func runOverlap(cc *caseCfg, b run.Batch, r *ev.Result) (abort bool) {
 		return false
 	}
 	x.c = c
+	x.clientStarted()
 	r.Count("cases", 1)
 	r.Count("cases_overlap", 1)
 	x.checkState("start", true, true)
